@@ -70,6 +70,25 @@ func checkCase(c Case) fw.Outcome {
 		feats[f] = true
 	}
 	inl, notes, err := sg.Inline(c.Mods)
+	// text copied from a grouping of module A into module B may name a module C that A imports and B does not (a grouping
+	// of A using one of C): the in-place spelling needs that import (every module is imported under its own prefix here)
+	for _, im := range inl {
+		txt := im.Text()
+		for _, om := range inl {
+			if om == im || om.BelongsTo != "" || !strings.Contains(txt, om.Prefix+":") {
+				continue
+			}
+			have := false
+			for _, i := range im.Imports {
+				if i.Mod == om.Name {
+					have = true
+				}
+			}
+			if !have {
+				im.Imports = append(im.Imports, sg.Import{Mod: om.Name, Prefix: om.Prefix})
+			}
+		}
+	}
 	var fc compile.FeaturesChecker = feats
 	if c.Clash != "" {
 		// a clash with a node that a disabled feature removes is a grey zone: clash cases run with every feature on
